@@ -121,8 +121,8 @@ def run(ctx, driver):
     ctx.rule = ("typed generator: 17 coupling shapes (isolated, chain, fan-in/out, cycle, antisymmetric, non-adjacent, offsets in/out of groups, "
                 "numeric<->analytic dependence, higher order, nonlinear, explicit time, dense) x random spelling x random entry order; propagators "
                 "skipped via the trace for 5 of 6 cases; distinct = distinct input dictionaries; non-trivial = >= 2 state variables or a coupling/offset/nonlinearity")
-    cases = gen_cases(ctx, 170 if quick else 3000)
-    results = pool.run_cases("harness.core.cases", "case_partition", cases, timeout=40 if quick else 120, init="init_worker", deadline=ctx.deadline())
+    cases = gen_cases(ctx, ctx.n(170, 3000))
+    results = pool.run_cases("harness.core.cases", "case_partition", cases, timeout=ctx.n(40, 120), init="init_worker", deadline=ctx.deadline())
     for case, res in zip(cases, results):
         ctx.evaluations += 1
         if res.get("timeout") or res.get("skipped_budget"):
